@@ -20,7 +20,7 @@ claimed={
  "C13":("exploration","§3 C13","independent rational validator of every accepted bank configuration (weights, isolated, oracle age, e-mode entries vs this bank's liability weights and the group's caps, killed state neither entered nor left) plus equal-price implication init-healthy => maint-healthy with the real pulse_health on forks"),
  "C14":("exploration","§3 C14","verdict table instruction kind x bank state x cached-pause region; state-level reading: while the cached pause is in force no vault balance or position of the group changes; refusals for a pause that is not in force are violations"),
  "C15":("exploration","§3 C15","adversarial fee-admin pause game under simulated time with boundary-targeted clocks; bounds on until, counters and resets after every step; bounded-liveness canary deposits on forks at cached expiry -1/0 and now+3600"),
- "C16":("exploration","§3 C16","structural invariants of every changed user account after every instruction plus history checks (tag permanence, transfer once, close preconditions, disabled accounts)"),
+ "C16":("exploration","§3 C16","structural invariants of every changed user account after every instruction plus history checks (tag permanence, transfer once, close preconditions, disabled accounts); integration-position cap reached through the real solend_deposit against a stub Solend venue (other venues' positions are byte fixtures)"),
  "C19":("exploration","§3 C19","exact (rational) fee-collection arithmetic and bucket deltas, canonical recomputation of every destination, sanctioned-door check for every draw-down of fee / insurance / emissions vaults, emissions conservation and proportional accrual"),
  "C17":("exploration","§3 C17","cap and utilisation post-conditions after every deposit/borrow/withdraw; 'up to limit never fails for capacity'; capacity +-2 probes on forks"),
 }
